@@ -34,6 +34,7 @@ def base_text(name):
 CELL_VALUES = [
     "", "default", "DEFAULT", "0", "1", "-1", "2", "3", "64", "999", "1e3", "1.5", "0x10", " 7 ", "+5", "1_0", "٣", "TRUE", "false", "yes", "maybe",
     "high_quality", "low_delay", "unconstrained", "hd", "pictures_are_fields", "le_gall_5_3", "fidelity", "color_4_2_0", "interlaced",
+    "real", "imag", "numerator", "denominator", "conjugate", "bit_length", "to_bytes", "mro", "value", "__doc__", "__class__", "__members__", "__name__", "_member_names_", "None", "True",
     "hd_{lossy}", "{0}", "a{b", "cfg{}", "x}y", "%s", "100%", "column_A", "column_B", "column_C", "column_D", "column_E", "minimal", "hd",
     "custom_format", "hd1080p_50", "0 0 0 0", "1 2 3", "1 2 3 4 5 6 7", "a b c d", "-1 -1 -1 -1", "\"", "\"x", "a,b", "9" * 30, "9" * 5000, "\x00", "\ufeff", "name",
 ]
